@@ -62,3 +62,44 @@ fn av1_sequence_header_with_reserved_profile_is_an_error_not_a_panic() {
         .unwrap();
     assert!(m.write_video(0.0, &frame, true).is_err());
 }
+
+// ---- known findings (still panic on the current tree) -------------------------------------------------
+fn h264_key() -> Vec<u8> {
+    vec![0, 0, 0, 1, 0x67, 0x42, 0x00, 0x1e, 0xda, 0x02, 0x80, 0x2d, 0x8b, 0x11, 0, 0, 0, 1, 0x68, 0xce, 0x38, 0x80, 0, 0, 0, 1, 0x65, 0x88, 0x84]
+}
+
+#[test]
+#[ignore = "known finding C12: dimensions above 65535 reach an always-on invariant in finish()"]
+fn kf_wide_video_panics_in_finish() {
+    let mut m = muxide::api::MuxerBuilder::new(Vec::new())
+        .video(muxide::api::VideoCodec::H264, 70_000, 480, 30.0)
+        .build()
+        .unwrap();
+    m.write_video(0.0, &h264_key(), true).unwrap();
+    let r = std::panic::catch_unwind(std::panic::AssertUnwindSafe(move || m.finish()));
+    assert!(r.is_ok(), "finish() panicked");
+}
+
+#[test]
+#[ignore = "known finding C12: pts as i64 - dts as i64 overflows for pts >= 2^63 ticks"]
+fn kf_cts_subtraction_overflow() {
+    let mut m = muxide::api::MuxerBuilder::new(Vec::new())
+        .video(muxide::api::VideoCodec::H264, 640, 480, 30.0)
+        .build()
+        .unwrap();
+    // pts ~ 2^63 ticks (1.0248e14 s), dts = 1e6 s
+    let r0 = m.write_video_with_dts(102481911520609.0, 1.0e6, &h264_key(), true);
+    assert!(r0.is_ok(), "{:?}", r0.err());
+    let r = std::panic::catch_unwind(std::panic::AssertUnwindSafe(move || m.finish()));
+    assert!(r.is_ok(), "finish() panicked");
+}
+
+#[test]
+#[ignore = "known finding C12: fragmented trun composition offset subtraction overflows"]
+fn kf_fragmented_cts_subtraction_overflow() {
+    let cfg = muxide::fragmented::FragmentConfig { width: 640, height: 480, timescale: 90000, fragment_duration_ms: 1000, sps: vec![0x67, 1, 2, 3], pps: vec![0x68, 1], vps: None, av1_sequence_header: None, vp9_config: None };
+    let mut m = muxide::fragmented::FragmentedMuxer::new(cfg);
+    m.write_video(1u64 << 63, 1_000_000, &[0, 0, 0, 1, 0x65, 1], true).unwrap();
+    let r = std::panic::catch_unwind(std::panic::AssertUnwindSafe(move || m.flush_segment()));
+    assert!(r.is_ok(), "flush_segment() panicked");
+}
